@@ -391,7 +391,7 @@ Qed.
 Lemma in_range_norm x :
   word64 x -> in_gds_range x ->
   exists s m e, f64_decomp x = Some (s, m, e) /\ x = f64_of_norm s m e /\
-    two52 <= m < two53 /\ -308 <= e <= 199.
+    two52 <= m < two53 /\ -312 <= e <= 199.
 Proof.
   intros Hw (s & m & e & Hd & Hm & Hlo & Hhi).
   rewrite dy_lt_pow2_log2 in Hlo, Hhi by exact Hm.
@@ -409,6 +409,59 @@ Proof.
   destruct (norm_of_decomp x s m e Hn Hd) as (Hx & Hmr & Her).
   rewrite (log2_norm m Hmr) in Hlo, Hhi.
   repeat split; try assumption; lia.
+Qed.
+
+(** The range used until 2026-10-02 (lower bound 16^-64) is inside the present one (16^-65). *)
+Lemma in_gds_range_old_incl x : in_gds_range_old x -> in_gds_range x.
+Proof.
+  intros (s & m & e & Hd & Hm & Hlo & Hhi). exists s, m, e.
+  repeat split; try assumption.
+  destruct (dy_lt_pow2 m e (-260)) eqn:H; [|reflexivity].
+  rewrite (dy_lt_pow2_mono m e (-260) (-256) Hm ltac:(lia) H) in Hlo. discriminate.
+Qed.
+
+(** [in_gds_rangeb] decides [in_gds_range]. *)
+Lemma in_gds_rangeb_spec x : in_gds_rangeb x = true <-> in_gds_range x.
+Proof.
+  unfold in_gds_rangeb, in_gds_range. split.
+  - destruct (f64_decomp x) as [[[s m] e]|]; [|discriminate].
+    rewrite !andb_true_iff, negb_true_iff, Z.ltb_lt. intros [[Hm Hlo] Hhi].
+    exists s, m, e. repeat split; assumption.
+  - intros (s & m & e & Hd & Hm & Hlo & Hhi). rewrite Hd, Hlo, Hhi.
+    apply Z.ltb_lt in Hm. rewrite Hm. reflexivity.
+Qed.
+
+(** In terms of the binary exponent of a normal double m * 2^e (2^52 <= m < 2^53):
+    in range iff 2^-260 <= m * 2^e < 2^252 iff -312 <= e <= 199; in particular every
+    in-range double is a normal one. The true base-16 exponent is then in -64..63. *)
+Lemma in_range_true_exp16 x s m e :
+  word64 x -> in_gds_range x -> f64_decomp x = Some (s, m, e) ->
+  -64 <= true_exp16 m e <= 63.
+Proof.
+  intros Hw Hr Hd.
+  destruct (in_range_norm x Hw Hr) as (s' & m' & e' & Hd' & _ & Hm & He).
+  rewrite Hd in Hd'. injection Hd' as <- <- <-.
+  rewrite (true_exp16_norm m e Hm). dm_lia.
+Qed.
+
+(** The lowest hex decade [16^-65, 16^-64) is in range and has true base-16 exponent -64,
+    i.e. exponent byte 0 (this decade was outside [in_gds_range_old]). *)
+Lemma lowest_decade_in_range s m e :
+  two52 <= m < two53 -> -312 <= e <= -309 ->
+  in_gds_range (f64_of_norm s m e) /\ ~ in_gds_range_old (f64_of_norm s m e) /\
+  true_exp16 m e = -64.
+Proof.
+  intros Hm He.
+  assert (Hm0 : 0 < m) by (consts; lia).
+  assert (Hd : f64_decomp (f64_of_norm s m e) = Some (s, m, e))
+    by (apply decomp_of_norm; [exact Hm | lia]).
+  split; [|split].
+  - exists s, m, e. rewrite !dy_lt_pow2_log2 by exact Hm0. rewrite (log2_norm m Hm).
+    repeat split; try assumption; [apply Z.ltb_ge | apply Z.ltb_lt]; lia.
+  - intros (s' & m' & e' & Hd' & _ & Hlo & _). rewrite Hd in Hd'. injection Hd' as <- <- <-.
+    rewrite dy_lt_pow2_log2 in Hlo by exact Hm0. rewrite (log2_norm m Hm) in Hlo.
+    apply Z.ltb_ge in Hlo. lia.
+  - rewrite (true_exp16_norm m e Hm). dm_lia.
 Qed.
 
 (** * (1)-(3): encoding of in-range doubles *)
@@ -450,6 +503,33 @@ Proof.
   repeat split; try (apply Hw'); try lia.
   - consts; nia.
   - f_equal. f_equal. lia.
+Qed.
+
+(** the exponent byte is 64 + E with E the true base-16 exponent, and lies in 0..127
+    (0 exactly on the lowest hex decade 16^-65 <= |x| < 16^-64) *)
+Theorem encode_exp_byte :
+  forall est x s m e, word64 x -> in_gds_range x -> f64_decomp x = Some (s, m, e) ->
+    gds_exp7 (gds_encode_with est x) = 64 + true_exp16 m e /\
+    0 <= 64 + true_exp16 m e <= 127 /\
+    (gds_exp7 (gds_encode_with est x) = 0 <-> dy_lt_pow2 m e (-256) = true).
+Proof.
+  intros est x s m e Hw Hr Hd.
+  destruct (in_range_norm x Hw Hr) as (s' & m' & e' & Hd' & Hx & Hm & He).
+  rewrite Hd in Hd'. injection Hd' as <- <- <-.
+  assert (Hm0 : 0 < m) by (consts; lia).
+  set (E := (e + 56) / 4). set (j := (e + 56) mod 4).
+  assert (HE : -64 <= E <= 63) by (subst E; dm_lia).
+  assert (Hj : 0 <= j <= 3) by (subst j; dm_lia).
+  assert (Hej : e = 4 * E - 56 + j) by (subst E j; dm_lia).
+  rewrite (encode_mid est x s m e E j Hd Hm Hej HE Hj).
+  pose proof (pow2_small j Hj) as Hp.
+  assert (HM : 0 <= m * 2 ^ j < two56) by (consts; nia).
+  assert (HX : 0 <= 64 + E <= 127) by lia.
+  destruct (gds_fields _ s (64 + E) (m * 2 ^ j) eq_refl HX HM) as (_ & _ & Hx7 & _).
+  rewrite Hx7, (true_exp16_norm m e Hm). fold E.
+  split; [reflexivity|]. split; [exact HX|].
+  rewrite dy_lt_pow2_log2 by exact Hm0. rewrite (log2_norm m Hm), Z.ltb_lt.
+  subst E. split; intros H; dm_lia.
 Qed.
 
 Theorem decode_encode :
